@@ -1094,8 +1094,25 @@ fn parse_at_rule(text: &str) -> IResult<&str, ()> {
     skip_to_end_of_statement(rest)
 }
 
+/// Skip a rule set which can't be parsed (for example because its selector
+/// uses syntax we don't support), up to the end of its block, so that the
+/// rules after it are still used.
+fn skip_unparsable_ruleset(text: &str) -> IResult<&str, ()> {
+    let (start, _) = skip_optional_whitespace(text)?;
+    let (rest, _) = skip_to_end_of_statement(start)?;
+    if rest.len() == start.len() {
+        // Nothing to skip (end of input or a stray closing brace).
+        return fail(text);
+    }
+    Ok((rest, ()))
+}
+
 fn parse_statement(text: &str) -> IResult<&str, Option<RuleSet>> {
-    alt((map(parse_ruleset, Some), map(parse_at_rule, |_| None)))(text)
+    alt((
+        map(parse_ruleset, Some),
+        map(parse_at_rule, |_| None),
+        map(skip_unparsable_ruleset, |_| None),
+    ))(text)
 }
 
 pub(crate) fn parse_stylesheet(text: &str) -> IResult<&str, Vec<RuleSet>> {
